@@ -12,6 +12,7 @@ const ssPkg = "pkg/core/statesync"
 
 // C20: restore-hash-guard, sync-dominators, stage-after-persist, slot-clear-guard, restore-fresh-node
 func ruleSyncGuards(c *Ctx) {
+	canonicalNodeBytes(c)
 	cleanBeforeSync(c)
 	ringWindowGate(c)
 	fnAB := [3]string{ssPkg, "Module", "AddBlock"}
